@@ -1,2 +1,12 @@
 import Proofs.C02
-#print axioms C02.placeholder
+#print axioms C02.store_step
+#print axioms C02.store_refines_map
+#print axioms C02.store_refines_map_from_empty
+#print axioms C02.store_independent_of_stale_slots
+#print axioms C02.files_labels
+#print axioms C02.reader_refines_spec
+#print axioms C02.scan_iterates
+#print axioms C02.pending_new
+#print axioms C02.files_no_leak
+#print axioms C02.files_refine_spec
+#print axioms C02.units_carry
